@@ -148,8 +148,17 @@ pub struct World {
     pub msg_counter: u64,
 }
 
+/// relay pool: plain hosts, and URLs with a path - with and without a trailing slash, with a port
+/// (a serialiser that normalises differently from the parser shows up as a relay set that differs
+/// between the creator's record, the extension and the other members)
 pub fn relay(i: usize) -> RelayUrl {
-    RelayUrl::parse(&format!("wss://relay{i}.example.com")).unwrap()
+    let s = match i % 5 {
+        0 | 1 => format!("wss://relay{i}.example.com"),
+        2 => format!("wss://relay{i}.example.com/nostr/"),
+        3 => format!("wss://relay{i}.example.com/a/b"),
+        _ => format!("wss://relay{i}.example.com:4848/x/y/"),
+    };
+    RelayUrl::parse(&s).unwrap()
 }
 
 pub fn result_class(r: &Result<MessageProcessingResult, mdk_core::Error>) -> String {
@@ -309,7 +318,7 @@ impl World {
         if !admin_pks.contains(&self.clients[creator].pk()) {
             admin_pks.push(self.clients[creator].pk());
         }
-        let cfg = NostrGroupConfigData::new(name.to_string(), format!("desc of {name}"), None, None, None, vec![relay(0), relay(1)], admin_pks);
+        let cfg = NostrGroupConfigData::new(name.to_string(), format!("desc of {name}"), None, None, None, vec![relay(0), relay(2)], admin_pks);
         mdk_core::verif::set_created_at(Some(self.t));
         let creator_pk = self.clients[creator].pk();
         let res = with_mdk!(self.clients[creator].mdk, m => m.create_group(&creator_pk, kps, cfg)).expect("create_group");
